@@ -85,4 +85,22 @@ WsOnly == \A d \in DataSets, c \in Cfgs :
             LET r == Expect(d, c)
                 p == Plain(d, c)
             IN (r.ok /\ p.ok) => NoWs(r.out) = NoWs(p.out)
+
+\* C07 on the reference: a top-level `render` (isolated partial) contributes exactly
+\* the text it produces when rendered alone with the same globals, and whatever
+\* it does leaves the rest of the caller's output unchanged.
+Tpls(p) == <<<<"main", AnnotTemplate(p)>>>> \o AnnPartials
+Without(p, i) == SubSeq(p, 1, i - 1) \o SubSeq(p, i + 1, Len(p))
+RenderIsolated ==
+  \A d \in DataSets, c \in Cfgs : \A i \in DOMAIN prog :
+     prog[i].k = "render" =>
+       LET full   == Render(Tpls(prog), "main", d, c)
+           upto   == Render(Tpls(SubSeq(prog, 1, i)), "main", d, c)
+           before == Render(Tpls(SubSeq(prog, 1, i - 1)), "main", d, c)
+           solo   == Render(Tpls(<<prog[i]>>), "main", d, c)
+           wo     == Render(Tpls(Without(prog, i)), "main", d, c)
+           EvalsOwnArgs == prog[i].kwargs = <<>> /\ prog[i].mode = "none"
+       IN (full.ok /\ upto.ok /\ before.ok /\ solo.ok /\ wo.ok) =>
+            /\ EvalsOwnArgs => upto.out = before.out \o solo.out
+            /\ SubSeq(full.out, Len(upto.out) + 1, Len(full.out)) = SubSeq(wo.out, Len(before.out) + 1, Len(wo.out))
 =============================================================================
